@@ -10,6 +10,7 @@ use crate::{
   managed::{AllocObjResult, AllocateObj, DebugHeap, Trace},
   object::ObjectKind,
   reference::{ObjectHandle, ObjectRef},
+  utils::fmt_nested,
   value::Value,
 };
 
@@ -139,13 +140,17 @@ impl Display for Tuple {
   fn fmt(&self, f: &mut fmt::Formatter<'_>) -> fmt::Result {
     write!(f, "(")?;
 
-    if let Some((last, rest)) = self.split_last() {
-      for item in rest.iter() {
-        write!(f, "{item}, ")?;
+    fmt_nested(f, self.0.ptr().as_ptr() as usize, |f| {
+      if let Some((last, rest)) = self.split_last() {
+        for item in rest.iter() {
+          write!(f, "{item}, ")?;
+        }
+
+        write!(f, "{last}")?;
       }
 
-      write!(f, "{last}")?;
-    }
+      Ok(())
+    })?;
 
     write!(f, ")")
   }
